@@ -157,9 +157,11 @@ def run(ctx):
     ctx.saw_func(hap)
     xn, mn = hap.params()[1:3]
     rr = [r for r in walk_no_nested(hap.node) if isinstance(r, ast.Return)]
-    txt = [src(r.value) for r in rr]
+    from ..terms import canon
+    txt = [canon(r.value, add=True) for r in rr]
     ctx.check("R09.2", f"{hap.key}::complex input: same routine and mode for real and imaginary part",
-              f"self._apply_cartesian({xn}.real, {mn}) + 1j * self._apply_cartesian({xn}.imag, {mn})" in txt and f"self._apply_cartesian({xn}, {mn})" in txt,
+              canon(f"self._apply_cartesian({xn}.real, {mn}) + 1j * self._apply_cartesian({xn}.imag, {mn})", add=True) in txt and
+              canon(f"self._apply_cartesian({xn}, {mn})") in txt,
               str(txt), hap)
     HT = m.cls(HO, "HarmonicTransformOperator")
     hta = HT.methods["apply"]
